@@ -293,6 +293,29 @@ def run_ctor(task):
         if not isinstance(ex, ValueError):
             cx.viol("construct:" + tag, {"outcome": "accepted" if ex is None else type(ex).__name__},
                     detail={"message": "" if ex is None else str(ex)[:200]})
+    # the parameter list a class DECLARES in its source (a dict literal in the class body) is the documentation; the runtime
+    # attribute must be exactly that (added after the seeded change S-C05-1, where the metaclass merged the bases' lists into
+    # every derived class, so wrappers silently accepted the names they hide)
+    declared = declared_parameters(c)
+    if declared is not None:
+        cx.count("classes_with_declared_parameter_literal")
+        if sorted(declared) != sorted(params):
+            cx.viol("construct:runtime-parameters-differ-from-declared",
+                    {"extra": sorted(set(params) - set(declared)), "missing": sorted(set(declared) - set(params))})
+        hidden = []
+        for b in c.__mro__[1:]:
+            db = declared_parameters(b) if b.__module__.startswith("exactpack") else None
+            for n in (db or []):
+                if n not in declared and n not in hidden and isinstance(getattr(c, n, None), (int, float, str, bool)):
+                    hidden.append(n)
+        for a in hidden[:3]:
+            kw = dict(base)
+            kw[a] = getattr(c, a)
+            s, ex = word("hidden-base-parameter", kw)
+            if not isinstance(ex, ValueError):
+                cx.viol("construct:hidden-base-parameter", {"attribute": a, "outcome": "accepted" if ex is None else type(ex).__name__},
+                        detail={"message": "" if ex is None else str(ex)[:200]})
+            cx.count("hidden_base_parameter_words")
     # a public class attribute that is not a documented parameter must be rejected like any unknown name
     cand = sorted(a for a in dir(c) if not a.startswith("_") and a not in params and a != "parameters"
                   and not callable(getattr(c, a)) and isinstance(getattr(c, a), (int, float, str, bool)))
@@ -326,6 +349,31 @@ def run_ctor(task):
     cx.res["sample"] = {"class": short(key), "parameters": params, "without_default": nodef, "non_parameter_attribute": cand[:1]}
     cx.res["digest"] = cx.dg.hex()
     return cx.res
+
+
+_DECL_CACHE = {}
+
+
+def declared_parameters(c):
+    """Keys of the `parameters = {...}` dict literal in the class body, read from the SOURCE (None if the class has no such
+    literal, e.g. `parameters = Base.parameters`)."""
+    import ast
+    import inspect
+    import textwrap
+    if c in _DECL_CACHE:
+        return _DECL_CACHE[c]
+    out = None
+    try:
+        tree = ast.parse(textwrap.dedent(inspect.getsource(c)))
+        body = tree.body[0].body
+        for node in body:
+            if isinstance(node, ast.Assign) and any(isinstance(t, ast.Name) and t.id == "parameters" for t in node.targets):
+                if isinstance(node.value, ast.Dict) and all(isinstance(k, ast.Constant) and isinstance(k.value, str) for k in node.value.keys):
+                    out = [k.value for k in node.value.keys] or None      # an empty literal is filled programmatically (Blake)
+    except Exception:
+        out = None
+    _DECL_CACHE[c] = out
+    return out
 
 
 def run_words(task):
